@@ -329,3 +329,151 @@ def unit(unit):
                 nfailed=sum(o.status == "failed" for o in obs), unknown=sum(o.status == "unknown" for o in obs),
                 undecided_notes=run.undecided[:5], stats=run.stats.as_dict(), by_backend=by,
                 wall_s=round(time.time() - t0, 2))
+
+
+def _tok_text(tokens):
+    """Text of a token list, for the decoder's own tokens (to_binja()/binja() applied) and for Binary Ninja tokens alike."""
+    out = []
+    for t in tokens:
+        for conv in ("binja", "to_binja"):
+            f = getattr(t, conv, None)
+            if callable(f):
+                try:
+                    t = f()
+                except Exception:  # noqa: BLE001
+                    pass
+                break
+        out.append(getattr(t, "text", None) if getattr(t, "text", None) is not None else str(t))
+    return "".join(out)
+
+
+def unit_hooks_history(unit):
+    """Bounded companion (concrete byte strings; caches keyed on part of the bytes hash their key, which a
+    symbolic byte string cannot follow): the three architecture callbacks are called on a byte string s'
+    and then on a string s that shares the first k bytes with s' (k = 1..len) but differs afterwards; the
+    results for s must be what the plain decoder says about s alone: same acceptance, length, rendered text,
+    lifted IL, and the text callback's round-trip guard must not demote it."""
+    import random
+    ARCH, EMU, OPC, OPCODES, asm_str, ILF = _setup()
+    t0 = time.time()
+    rng = random.Random(unit.get("seed", 0) * 7919 + unit["b0"])
+    arch = ARCH.SC62015()
+    obs = []
+    b0 = unit["b0"]
+    addr = 0x1000
+
+    def direct(data):
+        try:
+            ins = OPC.decode(bytes(data), addr, OPCODES)
+        except Exception:  # noqa: BLE001
+            return None
+        if ins is None:
+            return None
+        il = ILF(arch)
+        try:
+            ins.lift(il, addr)
+            iltxt = repr(_il_plain(il.ils))
+        except Exception as e:  # noqa: BLE001
+            iltxt = "lift-raises:" + type(e).__name__
+        return dict(length=ins.length(), text=asm_str(ins.render()), il=iltxt)
+
+    def hooks(data):
+        data = bytes(data)
+        out = {}
+        try:
+            info = arch.get_instruction_info(data, addr)
+            out["info"] = None if info is None else info.length
+        except Exception as e:  # noqa: BLE001
+            out["info"] = "raises:" + type(e).__name__
+        try:
+            r = arch.get_instruction_text(data, addr)
+            out["text"] = None if r is None else (_tok_text(r[0]), r[1])
+        except Exception as e:  # noqa: BLE001
+            out["text"] = "raises:" + type(e).__name__
+        il = ILF(arch)
+        try:
+            n = arch.get_instruction_low_level_il(data, addr, il)
+            out["il"] = None if n is None else (n, repr(_il_plain(il.ils)))
+        except Exception as e:  # noqa: BLE001
+            out["il"] = "raises:" + type(e).__name__
+        return out
+
+    n = unit.get("samples", 6) * (3 if b0 in PRE_BYTES else 1)
+    for sidx in range(n):
+        body = [b0] + [rng.choice([0x00, 0x04, 0x24, 0x80, 0xC0, 0x10, 0x20, 0xFF, rng.randrange(256)]) for _ in range(FULL - 1)]
+        if b0 in PRE_BYTES:
+            # behind a prefix: cycle through the opcodes with the longest encodings (6 bytes with the prefix)
+            longest = [0xF0, 0xF8, 0xDC, 0xF1, 0xFB, 0xD0, 0xF2, 0xF9, 0x62, 0xF3, 0xFA, 0x72, 0xD8, 0xC8, 0x54, 0xC0]
+            body[1] = longest[sidx % len(longest)]
+            body[2] = (0x80, 0xC0)[sidx % 2] if body[1] >= 0xF0 else body[2]
+        want = direct(body)
+        if unit.get('debug'):
+            print(bytes(body).hex(), want and (want['length'], want['text']))
+        ln = want["length"] if want else rng.randrange(2, FULL)
+        # longest shared prefix first: a cache keyed on any leading part of the bytes is then first filled by the history string
+        for k in range(min(ln, FULL - 1), 0, -1):
+            other = list(body)
+            pos = min(k, FULL - 1) if k < ln else ln - 1
+            other[pos] ^= rng.randrange(1, 256)
+            for j in range(pos + 1, FULL):
+                if rng.random() < 0.5:
+                    other[j] = rng.randrange(256)
+            hooks(other)                       # the history
+            got = hooks(body)
+            ok = True
+            why = ""
+            if want is None:
+                ok = got["info"] is None or isinstance(got["info"], str) is False and got["info"] is None
+                if got["info"] not in (None,):
+                    ok, why = False, f"plain decode rejects, info callback says {got['info']}"
+            else:
+                if got["info"] != want["length"]:
+                    ok, why = False, f"info length {got['info']} vs decoder {want['length']}"
+                elif got["text"] is None or isinstance(got["text"], str) or got["text"][0] != want["text"] or got["text"][1] != want["length"]:
+                    ok, why = False, f"text callback {got['text']} vs decoder ({want['text']!r}, {want['length']})"
+                elif not want["il"].startswith("lift-raises") and (got["il"] is None or isinstance(got["il"], str) or got["il"][0] != want["length"] or got["il"][1] != want["il"]):
+                    ok, why = False, f"IL callback differs from lifting the decoded instruction (length {None if not isinstance(got['il'], tuple) else got['il'][0]} vs {want['length']})"
+            obs.append(core.Obligation(f"hooks:after-history-sharing-{k}-bytes", "proved" if ok else "failed", backend="enumeration",
+                                       detail=None if ok else f"{bytes(body).hex()} after {bytes(other).hex()}: {why}",
+                                       model=None if ok else dict(bytes=bytes(body).hex(), history=bytes(other).hex())))
+    return dict(unit=unit, status="ok", error=None, kinds={"samples": n}, obligations=len(obs),
+                proved=sum(o.status == "proved" for o in obs), failed=[o.as_dict() for o in obs if o.status == "failed"][:6],
+                nfailed=sum(o.status == "failed" for o in obs), unknown=0, undecided_notes=[], stats=dict(paths=0, queries=0, solver_s=0.0),
+                by_backend={"enumeration": sum(o.status == "proved" for o in obs)}, wall_s=round(time.time() - t0, 2), bounded=True)
+
+
+def replay_hooks_history(body):
+    """Native replayer: the history string and then the string under test through the three callbacks of a
+    real SC62015 object, compared with the plain decoder."""
+    from binja_test_mocks import binja_api  # noqa: F401
+    from sc62015 import arch as ARCH
+    from sc62015.pysc62015.instr import opcodes as OPC
+    from sc62015.pysc62015.instr.opcode_table import OPCODES
+    from binja_test_mocks.tokens import asm_str
+    m = body.get("model") or {}
+    if "bytes" not in m:
+        return 4, "no byte strings recorded"
+    s, h = bytes.fromhex(m["bytes"]), bytes.fromhex(m["history"])
+    arch = ARCH.SC62015()
+    addr = 0x1000
+    try:
+        ins = OPC.decode(s, addr, OPCODES)
+    except Exception:  # noqa: BLE001
+        ins = None
+    for f in (arch.get_instruction_info, arch.get_instruction_text):
+        try:
+            f(h, addr)
+        except Exception:  # noqa: BLE001
+            pass
+    info = arch.get_instruction_info(s, addr)
+    text = arch.get_instruction_text(s, addr)
+    if ins is None:
+        return (1, f"{s.hex()}: decoder rejects, info callback accepts after history {h.hex()}") if info is not None else (0, "agree")
+    probs = []
+    if info is None or info.length != ins.length():
+        probs.append(f"info {None if info is None else info.length} vs decoder length {ins.length()}")
+    if text is None or _tok_text(text[0]) != asm_str(ins.render()) or text[1] != ins.length():
+        probs.append(f"text {None if text is None else (_tok_text(text[0]), text[1])} vs decoder ({asm_str(ins.render())!r}, {ins.length()})")
+    if probs:
+        return 1, f"{s.hex()} after history {h.hex()}: " + "; ".join(probs)
+    return 0, f"{s.hex()} after history {h.hex()}: callbacks agree with the plain decoder"
